@@ -49,8 +49,10 @@ class BlockReader {
   BlockReader& operator=(const BlockReader&) = default;
 
   constexpr std::size_t size() const { return size_; }
-  constexpr ValueType operator[](const std::size_t index) const {
-    return data_[index];
+  // Bytes are returned as unsigned values: a plain char may be signed, and a
+  // byte >= 0x80 would otherwise be sign extended when widened by the hash.
+  constexpr std::uint8_t operator[](const std::size_t index) const {
+    return static_cast<std::uint8_t>(data_[index]);
   }
 
  private:
